@@ -71,9 +71,10 @@ struct Case {
     allow: Vec<String>,
 }
 
-fn pipes_strat(workers: usize) -> impl Strategy<Value = Vec<PipeReq>> {
+fn pipes_strat(workers: usize, http: bool) -> impl Strategy<Value = Vec<PipeReq>> {
     // mostly pinned: unpinned placement follows HashMap iteration order, i.e. is not reproducible
-    let pipe = (1usize..=3, prop_oneof![1 => Just(None), 2 => (0..workers).prop_map(Some)]);
+    // (rebalance only moves unpinned pipelines, so the http sub-check pins fewer)
+    let pipe = (1usize..=3, prop_oneof![if http { 2 } else { 1 } => Just(None), 2 => (0..workers).prop_map(Some)]);
     prop::collection::vec(pipe, 1..=2).prop_map(|v| v.into_iter().enumerate().map(|(i, (replicas, affinity))| PipeReq { name: i as u8, replicas, affinity }).collect())
 }
 
@@ -85,7 +86,7 @@ fn strat(http: bool) -> impl Strategy<Value = Case> {
     (2usize..=3).prop_flat_map(move |workers| {
         let w = 0..workers;
         let phases = prop_oneof![
-            4 => (pipes_strat(workers), bools(6)).prop_map(|(pipes, outcomes)| Step::PlanDeploy { pipes, outcomes }),
+            4 => (pipes_strat(workers, http), bools(6)).prop_map(|(pipes, outcomes)| Step::PlanDeploy { pipes, outcomes }),
             3 => (0usize..4, bools(6)).prop_map(|(g, outcomes)| Step::PlanTeardown { g, outcomes }),
             4 => (0usize..4, 0usize..6, w.clone(), prop::bool::weighted(0.8), prop::bool::weighted(0.8)).prop_map(|(g, r, target, deploy_ok, delete_ok)| Step::PlanMigrate { g, r, target, deploy_ok, delete_ok }),
             4 => (0usize..4).prop_map(|op| Step::Exec { op }),
@@ -216,7 +217,7 @@ thread_local! {
 // ------------------------------------------------------------------ world
 
 enum Held {
-    Deploy { plan: DeployGroupPlan, outcomes: Vec<bool>, results: Option<Vec<DeployTaskResult>> },
+    Deploy { plan: DeployGroupPlan, outcomes: Vec<bool>, results: Option<Vec<DeployTaskResult>>, gens: Vec<u32> },
     Teardown { plan: TeardownPlan, outcomes: Vec<bool>, executed: bool },
     Migrate { plan: MigratePipelinePlan, source_alive: bool, deploy_ok: bool, delete_ok: bool, result: Option<Result<String, String>> },
 }
@@ -374,9 +375,15 @@ impl<'a> World<'a> {
                 }
             }
             Step::Commit { op } if !self.ops.is_empty() => match &self.ops[op % self.ops.len()] {
-                Held::Deploy { plan, .. } => {
+                Held::Deploy { plan, gens, .. } => {
                     if plan.tasks.iter().any(|t| !self.coord.workers.contains_key(&t.worker_id)) {
                         local("planned-worker-deregistered");
+                    }
+                    if plan.tasks.iter().any(|t| self.coord.workers.get(&t.worker_id).map(|w| w.status != WorkerStatus::Ready).unwrap_or(false)) {
+                        local("planned-worker-no-longer-ready");
+                    }
+                    if *gens != self.generation {
+                        local("some-worker-restarted-since-plan");
                     }
                 }
                 Held::Teardown { plan, .. } => match self.coord.pipeline_groups.get(&plan.group_id) {
@@ -411,6 +418,12 @@ impl<'a> World<'a> {
                         }
                         if plan.target_worker_id == plan.source_worker_id {
                             local("target-is-source");
+                        }
+                        if self.coord.workers.get(&plan.target_worker_id).map(|w| w.status != WorkerStatus::Ready).unwrap_or(false) {
+                            local("target-no-longer-ready");
+                        }
+                        if !self.coord.workers.contains_key(&plan.source_worker_id) {
+                            local("source-deregistered");
                         }
                         if plan.deployment.status != PipelineDeploymentStatus::Running {
                             global.push(NON_RUNNING);
@@ -480,7 +493,7 @@ impl<'a> World<'a> {
         let client = self.coord.http_client().clone();
         let connectors = self.coord.connectors.clone();
         match &mut self.ops[idx] {
-            Held::Deploy { plan, outcomes, results } => {
+            Held::Deploy { plan, outcomes, results, .. } => {
                 if results.is_some() {
                     return;
                 }
@@ -688,7 +701,7 @@ fn run_in(env: &Env, http: bool, case: &Case) -> Outcome {
                     routes: vec![],
                 };
                 if let Ok(plan) = wd.coord.plan_deploy_group(&spec) {
-                    wd.ops.push(Held::Deploy { plan, outcomes: outcomes.clone(), results: None });
+                    wd.ops.push(Held::Deploy { plan, outcomes: outcomes.clone(), results: None, gens: wd.generation.clone() });
                 }
             }
             Step::PlanTeardown { g, outcomes } => {
@@ -772,7 +785,7 @@ fn run_in(env: &Env, http: bool, case: &Case) -> Outcome {
         }
         if let Some((inv, detail)) = wd.invariants() {
             // signature: the interleaving class (step kind + first hazard) when there is one, else the broken invariant
-            let sig = match hazards.first() {
+            let sig = match hazards.iter().find(|h| EXCLUDED.contains(&h.as_str())).or(hazards.first()) {
                 Some(h) => format!("inconsistent@{}", h),
                 None => format!("{}@{}", inv, kind),
             };
